@@ -6,6 +6,7 @@ CONSTANTS
   KF_FindUnitRelock = FALSE
   MaxOps = 3
   ExportOps = 2
+  VerifierRemembersTokens = FALSE
   RedactNeedsTLSRecord = TRUE
   KeyFamily = "cover"
   DumpFile = ""
